@@ -188,7 +188,7 @@ pub fn run_net(cfg: &NetCfg) -> NetOutcome {
 
     let r = des::run(move || async move {
         let cfg = cfg2;
-        let stores: Vec<Store> = (0..n).map(|_| MemStore::with_hooks(NetHooks { latency: cfg.latency })).collect();
+        let stores: Vec<Store> = (0..n).map(|_| MemStore::with_hooks(NetHooks { latency: cfg.latency && cfg.bulk_peer.is_none() })).collect();
         for (i, ops) in initial2.iter().enumerate() {
             for op in ops {
                 insert_own(&stores[i], op, &t).await;
